@@ -1,6 +1,8 @@
 INIT Init
 NEXT Next
 CONSTANTS
+  Rep0 = "all"
+  Convs <- NoConvs
   Starts <- RatLeaves
   Leaves <- RatLeaves
   Exps <- ExpsSmall
